@@ -267,6 +267,11 @@ pub fn run(ctx: &Ctx) -> Report {
             crobots.push(make(0.45, -0.4, 0.0, [1.8, 2.1, 2.2, 0.25], s, o, 6));
             crobots.push(make(0.3, 0.0, 0.2, [1.5, 2.5, 1.9, 0.3], s, o, 6));
         }
+        // J5 offsets of exactly half a turn and beyond (the recomputed model J5 then sits a whole turn from its principal value)
+        for o5 in [PI, -PI, 3.6, -4.1] {
+            crobots.push(make(0.45, -0.4, 0.0, [1.8, 2.1, 2.2, 0.25], s, [0.0, 0.0, -PI / 2.0, 0.0, o5, 0.0], 6));
+            crobots.push(make(0.3, 0.0, 0.2, [1.5, 2.5, 1.9, 0.3], s, [0.2, 0.0, 0.0, -0.4, o5, 1.0], 6));
+        }
     }
     let ax: [Vec<f64>; 5] = if thorough {
         [vec![0.4, -2.4, 3.0], vec![-0.9, 0.5, 1.4], vec![-1.9, 0.8, 2.0], vec![0.0, 1.1, -2.0, 3.0], vec![0.0, 2.5, -1.2]]
